@@ -85,7 +85,11 @@ type parent struct {
 	stats            map[string]*famStat
 	crashes          map[string]*Crash // by signature
 	deaths           int64
+	deadline         time.Time
+	hangConfirmed    map[string]int // signature -> confirmations done
+	hangRepeats      int64
 	hangsUnconfirmed int64
+	oomNotReproduced int64
 	slow             []string
 	infra            []string
 	seq              atomic.Int64
@@ -143,6 +147,34 @@ func (p *parent) crashFrom(f *family, d *death, cse int64, ent int) *Crash {
 		InputHex: hexIfSmall(in), What: what, Count: 1}
 }
 
+// accountExplicit books the verdict of a pair that was run alone in a fresh
+// worker (the worker of the job counts the pair as skipped).
+func (p *parent) accountExplicit(f *family, cse int64, ent int, res *ExplicitResult) {
+	e := p.es[ent]
+	s := newSummary()
+	in, label, _ := f.gen(cse)
+	switch res.Outcome {
+	case "panic":
+		s.Panics++
+		s.addViol(&Viol{Sig: res.Sig, Rule: "panic", Entry: e.name, Family: f.name, Idx: cse, Label: label, Len: res.Len, InLen: len(in), InputHex: hexIfSmall(in),
+			Detail: fmt.Sprintf("panic: %s (in %s)", res.Panic, res.PanicSite), Count: 1})
+	case "rejected":
+		s.Rejected++
+	default:
+		s.OK++
+	}
+	if res.Outcome != "panic" && res.Sig != "" {
+		s.AllocViol++
+		s.addViol(&Viol{Sig: res.Sig, Rule: "alloc-amplification", Entry: e.name, Family: f.name, Idx: cse, Label: label, Len: res.Len, InLen: len(in), InputHex: hexIfSmall(in),
+			Detail: fmt.Sprintf("%d bytes allocated while decoding %d bytes (bound 64*%d+65536 = %d); largest allocation site: %s", res.Alloc, res.Len, res.Len, res.Budget, res.AllocSite), Count: 1})
+	}
+	if res.Alloc > s.MaxAlloc {
+		s.MaxAlloc = res.Alloc
+	}
+	s.Skipped = -1 // the job's worker counts the pair as skipped
+	p.merge(f, s)
+}
+
 // waitHello waits for the worker's first line.
 func waitHello(w *workerProc) bool {
 	select {
@@ -187,11 +219,17 @@ func (p *parent) runJob(slot string, wp **workerProc, js jobSpec) {
 	f := js.fam
 	checkpoint := js.lo
 	var skip [][2]int64
-	factor := 1
 	badStarts := 0
 	tick := time.NewTicker(250 * time.Millisecond)
 	defer tick.Stop()
 	for checkpoint < js.hi {
+		if time.Now().After(p.deadline.Add(30 * time.Second)) {
+			// far past the internal deadline (only happens when workers keep dying or hanging): give the job up
+			p.mu.Lock()
+			p.stats[f.name].skipped++
+			p.mu.Unlock()
+			return
+		}
 		if *wp == nil {
 			w, err := p.pool.start(slot)
 			if err != nil {
@@ -261,7 +299,7 @@ func (p *parent) runJob(slot string, wp **workerProc, js jobSpec) {
 				now := time.Now()
 				if a[shmBeat] != lastBeat {
 					lastBeat, lastChange = a[shmBeat], now
-				} else if a[shmSeq] == uint64(seq) && a[shmPhase] != 0 && now.Sub(lastChange) > backstop(a[shmLen], factor) {
+				} else if a[shmSeq] == uint64(seq) && a[shmPhase] != 0 && now.Sub(lastChange) > backstop(a[shmLen], 1) {
 					w.quitAndKill()
 					d = w.reap(true)
 					*wp = nil
@@ -278,7 +316,39 @@ func (p *parent) runJob(slot string, wp **workerProc, js jobSpec) {
 			continue
 		}
 		cse, ent := int64(d.ann[shmCase]), int(d.ann[shmEntry])
+		if d.reason == "out-of-memory" {
+			// whether an allocation fits under the address-space limit depends on what the worker's heap
+			// holds from earlier cases: the verdict is what happens alone in a fresh process
+			d2, res := p.confirmHang(slot, f, cse, ent, d.ann[shmLen])
+			switch {
+			case res != nil:
+				p.mu.Lock()
+				p.oomNotReproduced++
+				p.mu.Unlock()
+				p.accountExplicit(f, cse, ent, res)
+				skip = append(skip, [2]int64{cse, int64(ent)})
+				continue
+			case d2 == nil:
+				return
+			default:
+				d2.ann = d.ann
+				d = d2
+			}
+		}
 		if d.reason == "hang" {
+			_, sig, _ := deathSignature(p.es[ent].class, d)
+			p.mu.Lock()
+			done := p.hangConfirmed[sig]
+			p.mu.Unlock()
+			if done >= 2 {
+				// this signature has been confirmed twice already: further hits are counted, not re-confirmed (each confirmation costs minutes)
+				p.mu.Lock()
+				p.hangRepeats++
+				p.mu.Unlock()
+				p.addCrash(p.crashFrom(f, d, cse, ent))
+				skip = append(skip, [2]int64{cse, int64(ent)})
+				continue
+			}
 			d2, res := p.confirmHang(slot, f, cse, ent, d.ann[shmLen])
 			if res != nil {
 				p.mu.Lock()
@@ -287,7 +357,9 @@ func (p *parent) runJob(slot string, wp **workerProc, js jobSpec) {
 					p.slow = append(p.slow, fmt.Sprintf("%s case %d on %s (packet %d bytes, phase %d): alone it took %d µs", f.name, cse, p.es[ent].name, d.ann[shmLen], d.ann[shmPhase], res.Micros))
 				}
 				p.mu.Unlock()
-				factor = 4 // slow, not stuck: go on with a wider backstop
+				// slow, not stuck: the verdict of the pair is that of the run alone
+				p.accountExplicit(f, cse, ent, res)
+				skip = append(skip, [2]int64{cse, int64(ent)})
 				continue
 			}
 			if d2 == nil {
@@ -299,6 +371,13 @@ func (p *parent) runJob(slot string, wp **workerProc, js jobSpec) {
 			} else {
 				d2.ann = d.ann
 				d = d2
+				_, sig2, _ := deathSignature(p.es[ent].class, d)
+				p.mu.Lock()
+				p.hangConfirmed[sig2]++
+				if sig2 != sig {
+					p.hangConfirmed[sig]++
+				}
+				p.mu.Unlock()
 			}
 		}
 		p.addCrash(p.crashFrom(f, d, cse, ent))
@@ -326,7 +405,7 @@ func main() {
 		run.Finish(nil, nil)
 	}
 	p := &parent{run: run, thorough: run.Thorough(), es: buildEntries(false), pool: &pool{bin: self, root: root},
-		stats: map[string]*famStat{}, crashes: map[string]*Crash{}}
+		stats: map[string]*famStat{}, crashes: map[string]*Crash{}, hangConfirmed: map[string]int{}}
 	if run.Replay != "" {
 		p.replay()
 		return
@@ -337,11 +416,25 @@ func main() {
 		run.InfraError("%v", err)
 		run.Finish(nil, nil)
 	}
+	restricted := false
+	if only := os.Getenv("VERIF_C05_FAMILIES"); only != "" { // debugging aid: run some families only (the run is then marked not exhaustive)
+		var keep []*family
+		for _, f := range fams {
+			for _, n := range strings.Split(only, ",") {
+				if f.name == n {
+					keep = append(keep, f)
+				}
+			}
+		}
+		fams, restricted = keep, true
+		run.Note("VERIF_C05_FAMILIES=%s: only %d families run", only, len(keep))
+	}
 	p.fams = fams
 	deadline := start.Add(150 * time.Second)
 	if p.thorough {
-		deadline = start.Add(11 * time.Minute)
+		deadline = start.Add(10 * time.Minute)
 	}
+	p.deadline = deadline
 
 	// ---- jobs: the families with 100 KB..10 MiB inputs first (longest jobs), then the others in family order
 	var jobs []jobSpec
@@ -459,6 +552,12 @@ func main() {
 			samples = append(samples, "violating: "+f.sig+" :: "+clip(f.what, 300))
 		}
 	}
+	if p.oomNotReproduced > 0 {
+		run.Note("%d evaluations ended a worker with out-of-memory but completed alone in a fresh worker (the address space was taken by earlier cases); their verdict is that of the fresh run", p.oomNotReproduced)
+	}
+	if p.hangRepeats > 0 {
+		run.Note("%d further backstop hits under hang signatures that had been confirmed twice were counted without another confirmation run", p.hangRepeats)
+	}
 	if p.hangsUnconfirmed > 0 {
 		run.Note("%d executions exceeded the wall-clock backstop once but completed when re-run alone (not reported): %v", p.hangsUnconfirmed, p.slow)
 	}
@@ -479,35 +578,36 @@ func main() {
 		entryNames = append(entryNames, e.name)
 	}
 	cov := map[string]any{
-		"states":                             total.Inputs,
-		"transitions":                        total.Pairs,
-		"traces_validated_against_impl":      total.Pairs - total.Skipped + p.deaths,
-		"evaluations":                        total.Pairs,
-		"distinct_nontrivial":                nontrivial,
-		"inputs":                             total.Inputs,
-		"accepted":                           total.OK,
-		"rejected_with_error":                total.Rejected,
-		"panics_caught_in_worker":            total.Panics,
-		"allocation_bound_exceeded":          total.AllocViol,
-		"worker_deaths":                      p.deaths,
-		"worker_processes_started":           p.pool.spawned,
-		"pairs_measured_individually":        total.Remeasured,
-		"largest_individual_allocation":      total.MaxAlloc,
-		"largest_ratio_within_bound":         total.MaxRatio,
-		"largest_ratio_within_bound_at":      total.MaxRatioAt,
-		"recv_recovered_panics":              total.Recovered,
-		"longest_packet_bytes":               total.MaxLen,
-		"evaluations_by_entry_class":         total.ByClass,
-		"entries":                            entryNames,
-		"entries_by_class":                   classCount,
-		"representative_entries":             len(ctx.reps),
-		"baselines":                          len(ctx.bases),
-		"families":                           famCov,
-		"violating_evaluations_by_signature": bySig,
-		"workers":                            nw,
-		"exhaustive":                         exhaustive && len(p.infra) == 0,
-		"samples":                            samples,
-		"sandbox":                            fmt.Sprintf("every execution in a worker subprocess under `ulimit -v %d` KiB, GOMAXPROCS=1, default Go stack limit (1 GB, debug.SetMaxStack not used), no GOMEMLIMIT; announcements through a shared file mapping; deaths classified from exit status, stderr and CheckPanic's dump file", workerVMemKiB),
+		"states":                              total.Inputs,
+		"transitions":                         total.Pairs,
+		"traces_validated_against_impl":       total.Pairs - total.Skipped + p.deaths,
+		"evaluations":                         total.Pairs,
+		"distinct_nontrivial":                 nontrivial,
+		"inputs":                              total.Inputs,
+		"accepted":                            total.OK,
+		"rejected_with_error":                 total.Rejected,
+		"panics_caught_in_worker":             total.Panics,
+		"allocation_bound_exceeded":           total.AllocViol,
+		"worker_deaths":                       p.deaths,
+		"worker_processes_started":            p.pool.spawned,
+		"pairs_measured_individually":         total.Remeasured,
+		"largest_individual_allocation":       total.MaxAlloc,
+		"largest_ratio_within_bound":          total.MaxRatio,
+		"largest_ratio_within_bound_at":       total.MaxRatioAt,
+		"allocation_calibration_valid_inputs": total.Calib,
+		"recv_recovered_panics":               total.Recovered,
+		"longest_packet_bytes":                total.MaxLen,
+		"evaluations_by_entry_class":          total.ByClass,
+		"entries":                             entryNames,
+		"entries_by_class":                    classCount,
+		"representative_entries":              len(ctx.reps),
+		"baselines":                           len(ctx.bases),
+		"families":                            famCov,
+		"violating_evaluations_by_signature":  bySig,
+		"workers":                             nw,
+		"exhaustive":                          exhaustive && len(p.infra) == 0 && !restricted,
+		"samples":                             samples,
+		"sandbox":                             fmt.Sprintf("every execution in a worker subprocess under `ulimit -v %d` KiB, GOMAXPROCS=1, default Go stack limit (1 GB, debug.SetMaxStack not used), no GOMEMLIMIT; announcements through a shared file mapping; deaths classified from exit status, stderr and CheckPanic's dump file", workerVMemKiB),
 		"rule": "a case is (family, index) -> input bytes, generated deterministically in parent and worker; an evaluation is (input, entry); the general families (all-bytes, alphabet, nest-head, simplelist-head at tag 0) go to every entry, the baseline-derived families to the entries the baseline is valid for; " +
 			"jobs are fixed index ranges spread over worker processes, results are merged by sum / minimum so that they do not depend on scheduling; an evaluation is non-trivial when the entry rejects the input with an error, panics, exceeds the allocation bound or ends the worker; " +
 			"per signature the smallest packet is kept as the example",
